@@ -51,7 +51,7 @@ def check(k, seed):
         order = np.argsort(a, kind='stable')
         if np.any(np.diff(b[order]) < -tol(b)):
             fails.append(f'{name}: order reversed')
-        if np.any(np.abs(u[ok] - a) > 1e-6 * (1 + np.abs(a))):
+        if np.any(np.abs(u[ok] - a) > 1e-9 * (1 + np.abs(a))):      # (a few ulps of |x| are the honest rounding error)
             fails.append(f'{name}: undo(do(x)) != x (max err {np.max(np.abs(u[ok] - a))})')
         if unit and (np.any(b < -1e-12) or np.any(b > 1 + 1e-12)):
             fails.append(f'{name}: image outside [0, 1]: [{b.min()}, {b.max()}]')
